@@ -180,8 +180,12 @@ def check(prog, rep):
 
     # ------------------------------------------------------------------ R15.3 stack discipline
     ba = exact_arm(dit, prog, "BinaryOp")
-    roles = _child_roles(ba, arm_env(ba), dit.subject, it.name, "iterative")
-    rep.pin("post-order machines", "R15.3", it.name, roles.get("__ok__", False), roles.get("__why__", "push/pop pattern not recognised"), loc=f"{it.module.rel}:{ba.lineno}", detail="push/pop")
+    roles = _child_roles(ba, arm_env(ba), dit.subject, it.name, "iterative", prog=prog)
+    if roles.get("__ok__") is False and roles.get("__positive__"):
+        # both pushes and both pops were read and the names say which operand each result is taken for: a positive finding
+        rep.ob("R15.3", it.name, False, roles["__why__"], loc=f"{it.module.rel}:{ba.lineno}", detail="push/pop", robust=True)
+    else:
+        rep.pin("post-order machines", "R15.3", it.name, roles.get("__ok__", False), roles.get("__why__", "push/pop pattern not recognised"), loc=f"{it.module.rel}:{ba.lineno}", detail="push/pop")
     deg_it = prog.func(PAIRS[1][2])
     ok, why = _degree_stack(deg_it)
     rep.pin("post-order machines", "R15.3", deg_it.name, ok, why, loc=deg_it.loc, detail="push/pop")
